@@ -165,6 +165,8 @@ type Explorer struct {
 	AssumeTblStable bool // after a successful schema acquisition, table lookups hit
 	AssumeStorePresent bool // comma-ok lookups of a per-type map in an object store succeed (rules about "what is pending gets flushed")
 	Trace    string
+	InitFree map[int]Fact // closure roots: facts about the captured variables at the spawn site(s); key = free variable index
+	InitFreeIsCell map[int]bool // the free variable is the address of a captured variable (fact describes its content)
 	Mask     EffSet // effects tracked in must/may (others are reported as events but not remembered)
 	Opaque   EffSet // a callee whose closure is within this set is not inlined
 
@@ -699,6 +701,20 @@ func (x *Explorer) Run() {
 			f.Tags |= TParamObj
 		}
 		st.define(p, f)
+	}
+	for i, fv := range fn.FreeVars {
+		f, ok := x.InitFree[i]
+		if !ok {
+			continue
+		}
+		if x.InitFreeIsCell[i] {
+			cs := Sym{d: 0, i: 1, v: fv}
+			st.facts[cs] = f
+			st.cells[vkey{0, fv}] = cs
+			st.define(fv, Fact{Nil: triNo})
+		} else {
+			st.define(fv, f)
+		}
 	}
 	x.work = append(x.work, st)
 	for len(x.work) > 0 {
